@@ -20,3 +20,39 @@ Proof.
   pose proof (s_count_le a) as Hle. rewrite Hlen in *.
   repeat split. exact Hle.
 Qed.
+
+(* bitset(x.to_string(zero, one), 0, n, zero, one) == x on the code's side: the word-level string constructor
+   applied to the word-level to_string of a well-formed array gives back that very array (not just an equal
+   value: the representation is canonical), never a fired precondition, for every width, word size, pair of
+   different characters and n >= size(); likewise bitset(x.to_ullong()) == x for size() <= 64 *)
+From Tetl Require Import C17.SpecStr.
+
+Theorem code_round_trips : forall bits k, 0 < bits -> forall ws, wf bits k ws ->
+  (forall zero one n, zero <> one -> (N.of_nat bits <= n)%N ->
+     of_string bits (2 ^ k) (ones (2 ^ k)) (ones 64)
+       (to_string_m bits (2 ^ k) (ones (2 ^ k)) ws zero one) 0 n zero one = Ok ws)
+  /\ (bits <= 64 ->
+      of_ullong bits (2 ^ k) (ones (2 ^ k)) (ones 64)
+        (to_ullong_m bits (2 ^ k) (ones (2 ^ k)) (ones 64) ws) = ws).
+Proof.
+  intros bits k Hb ws Hwf.
+  destruct (observers_spec_all bits k Hb ws Hwf) as (_ & _ & _ & _ & Hstr & Hull & _ & Hcanon).
+  destruct (constructors_spec_all bits k Hb) as (Hint & Hofs & _).
+  pose proof (abs_length bits k ws) as Hlen.
+  split.
+  - intros zero one n Hne Hn.
+    specialize (Hofs (to_string_m bits (2 ^ k) (ones (2 ^ k)) ws zero one) 0 n zero one).
+    rewrite Hstr in *.
+    pose proof (string_round_trip (abs bits k ws) zero one n Hne) as Hrt.
+    rewrite Hlen in Hrt. specialize (Hrt Hn).
+    destruct (of_string bits (2 ^ k) (ones (2 ^ k)) (ones 64) (s_to_string (abs bits k ws) zero one) 0 n zero one)
+      as [ws'| | |] eqn:E; try (exfalso; exact Hofs).
+    + destruct Hofs as [Hwf' Heq]. rewrite Hrt in Heq. injection Heq as Heq.
+      f_equal. symmetry. apply Hcanon; assumption.
+    + destruct Hofs as [H|H]; rewrite Hrt in H; discriminate.
+  - intros H64. specialize (Hull H64). rewrite Hull.
+    destruct (Hint (s_value (abs bits k ws))) as [Hwf' Heq].
+    symmetry. apply Hcanon; [exact Hwf'|].
+    rewrite Heq. pose proof (s_of_ullong_value (abs bits k ws)) as Hv. rewrite Hlen in Hv.
+    symmetry. apply Hv. exact H64.
+Qed.
